@@ -257,6 +257,11 @@ func (env *SpecEnv) dollarValue(name string) *Val {
 		counts := map[string]int{}
 		for _, b := range env.calleeFn.Blocks {
 			for _, in := range b.Instrs {
+				if p, ok := in.(*ssa.Phi); ok && "$phi_"+p.Comment == name {
+					v := env.ex.freshVal(st, "callee.phi."+p.Comment, p.Type())
+					env.dollar[name] = v
+					return v
+				}
 				kind := dollarKind(in)
 				if kind == "" {
 					continue
@@ -278,16 +283,24 @@ func (env *SpecEnv) dollarValue(name string) *Val {
 	if strings.HasPrefix(name, "$phi_") {
 		// $phi_<var>: the value of the first phi with that source name that is computed on this path
 		want := strings.TrimPrefix(name, "$phi_")
+		var first *ssa.Phi
 		for _, b := range fr.fn.Blocks {
 			for _, in := range b.Instrs {
 				if p, ok := in.(*ssa.Phi); ok && p.Comment == want {
+					if first == nil {
+						first = p
+					}
 					if v, ok := fr.vals[p]; ok {
 						return v
 					}
 				}
 			}
 		}
-		env.fail("no phi named %s computed on this path", want)
+		if first != nil {
+			// exists, but not on this path: an arbitrary value (see the $-names below)
+			return env.ex.freshVal(st, "notcomputed", first.Type())
+		}
+		env.fail("no phi named %s in %s", want, fr.fn.String())
 	}
 	counts := map[string]int{}
 	for _, b := range fr.fn.Blocks {
